@@ -20,6 +20,8 @@ type provProfile struct {
 	topn                                                                   bool
 	lowPower                                                               bool // powers 1..3: many ties
 	wVal                                                                   int  // validator creation / removal
+	revisions                                                              bool // chain ids / initial heights with revision 1 or 2
+	faults                                                                 bool // inject failures of external calls before blocks
 	keyPool                                                                int  // number of extra consumer keys (default 10)
 	nvExtra                                                                int  // validator ids that may be created later
 	replenish                                                              int64
@@ -190,12 +192,18 @@ func (p *provRunner) genOne(r *Rng, prof provProfile) string {
 	switch pickWeighted(r, ws) {
 	case 0: // create
 		chain := fmt.Sprintf("c%d-1", r.intn(4))
+		if prof.revisions && r.chance(30) {
+			chain = fmt.Sprintf("c%d-%d", r.intn(4), 1+r.intn(2))
+		}
 		if r.chance(5) {
 			chain = []string{"", "neutron-1", "nochainrev"}[r.intn(3)]
 		}
 		s := fmt.Sprintf("create s=%s chain=%s", p.users(r), chain)
 		if r.chance(75) {
 			s += fmt.Sprintf(" init=1 spawn=%d", p.genSpawn(r))
+			if prof.revisions && r.chance(35) {
+				s += fmt.Sprintf(" rev=%d", 1+r.intn(2))
+			}
 			if prof.conns > 0 && r.chance(35) {
 				k := r.intn(prof.conns)
 				s += fmt.Sprintf(" conn=connection-%d", 900+k)
@@ -221,9 +229,14 @@ func (p *provRunner) genOne(r *Rng, prof provProfile) string {
 		}
 		if r.chance(10) {
 			s += fmt.Sprintf(" newchain=c%d-1", r.intn(5))
+		} else if prof.revisions && r.chance(12) {
+			s += fmt.Sprintf(" newchain=c%d-%d", r.intn(5), 1+r.intn(2))
 		}
 		if r.chance(50) {
 			s += fmt.Sprintf(" init=1 spawn=%d", p.genSpawn(r))
+			if prof.revisions && r.chance(35) {
+				s += fmt.Sprintf(" rev=%d", 1+r.intn(2))
+			}
 			if prof.conns > 0 && r.chance(25) {
 				s += fmt.Sprintf(" conn=connection-%d", 900+r.intn(prof.conns))
 			}
@@ -513,8 +526,17 @@ func genProv(prof provProfile) func(r *Rng, run Runner, n int, tier string) {
 			if s == "" {
 				// a block boundary: staking end block, provider end block, next begin block
 				run.Do("stkend")
+				if prof.faults && r.chance(20) {
+					run.Do(fmt.Sprintf("fail call=%s nth=%d", []string{"channel.SendPacket", "channel.ChanCloseInit"}[r.intn(2)], 1+r.intn(2)))
+				}
 				run.Do("end")
+				run.Do("clearfail")
+				if prof.faults && r.chance(35) {
+					calls := []string{"client.CreateClient", "connection.GetConnection", "client.GetClientState", "staking.GetHistoricalInfo", "staking.UnbondingTime", "channel.ChanCloseInit"}
+					run.Do(fmt.Sprintf("fail call=%s nth=%d", calls[r.intn(len(calls))], 1+r.intn(3)))
+				}
 				run.Do(fmt.Sprintf("begin dh=1 dt=%d", p.genDt(r)))
+				run.Do("clearfail")
 				continue
 			}
 			run.Do(s)
@@ -539,5 +561,8 @@ func init() {
 	keys := provProfile{name: "keys", nv: 4, nvExtra: 2, maxvals: 5, M: 4, epoch: 2, unb: 12 * sec, keyPool: 5,
 		wCreate: 5, wUpdate: 4, wRemove: 3, wOpt: 14, wAssign: 34, wStake: 3, wBlock: 22, wVal: 9}
 	streams["keys"] = StreamDef{New: func(t *Trace) Runner { return newProvRunner(t) }, Gen: genProv(keys)}
+	faults := provProfile{name: "faults", nv: 5, maxvals: 5, M: 4, epoch: 2, unb: 15 * sec, conns: 2, revisions: true, faults: true,
+		wCreate: 14, wUpdate: 16, wRemove: 6, wOpt: 20, wAssign: 3, wStake: 5, wBlock: 26, wChan: 12}
+	streams["faults"] = StreamDef{New: func(t *Trace) Runner { return newProvRunner(t) }, Gen: genProv(faults)}
 	streams["epoch"] = StreamDef{New: func(t *Trace) Runner { return newProvRunner(t) }, Gen: genProv(ep)}
 }
